@@ -36,9 +36,19 @@ const BATTERY: &[&str] = &[
     "'ab' beginWith 'a' ? 1 << 3 : 0",
 ];
 
+/// after a returned error nothing can be poisoned (no unwinding took place): three
+/// expressions that touch the function, operator and context paths are asked again; after a
+/// panic, all of them
+const SHORT: &[usize] = &[1, 4, 9];
+
 fn battery() -> Vec<String> {
-    BATTERY
+    battery_of(&(0..BATTERY.len()).collect::<Vec<_>>())
+}
+
+fn battery_of(which: &[usize]) -> Vec<String> {
+    which
         .iter()
+        .map(|i| BATTERY[*i])
         .map(|p| {
             let r = guarded(|| {
                 let ast = parse_expression(p).map_err(|e| format!("parse: {:?}", e))?;
@@ -90,8 +100,10 @@ fn aftermath(ctx: &mut Context, expected: &[String], fk: &str, site: &str, case:
         }
     }
     // (a) every registry still answers
-    let now = battery();
-    for (i, (w, g)) in expected.iter().zip(&now).enumerate() {
+    let which: Vec<usize> = if fk == "panic" { (0..BATTERY.len()).collect() } else { SHORT.to_vec() };
+    let now = battery_of(&which);
+    for (i, g) in which.iter().copied().zip(&now) {
+        let w = &expected[i];
         if w != g {
             healthy = false;
             out.fail(format!("aftermath:registry:{}:{}:{}", fk, site, BATTERY[i].split_whitespace().next().unwrap_or("")), case, format!("{:?} now gives {} (before: {})", BATTERY[i], g, w));
@@ -120,13 +132,13 @@ impl Prop for C15 {
             stages: vec![Stage {
                 name: "faults".into(),
                 len: n,
-                chunk: (n / 20).max(10),
+                chunk: (n / 48).max(10),
                 timeout: Duration::from_secs(1200),
                 what: "program x handler invocation index k x {Err, panic}, each followed by the aftermath checks".into(),
             }],
             rule: format!(
                 "fault enumeration: every program of the effects set (<= 3 inner nodes over 16 kinds, thorough: plus exactly 4 over 10 kinds; this run: max {} nodes; all handler kinds: context function by call and by bare name, global function, registered prefix / infix / setter / postfix operators) x every invocation index k x {{return Err, panic}}. \
-                 Oracle: log = reference log truncated after k; Err => Err, panic => reaches the caller as an unwind; then a 12-expression battery over all four registries gives its pre-fault results (this thread and a new thread), and the same context answers get / get_variable / set_variable / exec and holds the reference bindings. distinct = distinct (program) with >= 1 handler invocation",
+                 Oracle: log = reference log truncated after k; Err => Err, panic => reaches the caller as an unwind; then a 12-expression battery over all four registries (3 of them after a returned error, where no unwinding took place) gives its pre-fault results (this thread and a new thread), and the same context answers get / get_variable / set_variable / exec and holds the reference bindings. distinct = distinct (program) with >= 1 handler invocation",
                 max_nodes(tier)
             ),
             assumptions: vec!["a worker stops at the first aftermath failure (later cases in that process would be contaminated); the cases it did not reach are not counted".into()],
@@ -141,6 +153,11 @@ impl Prop for C15 {
         let progs = Programs::new(level(tier));
         for i in a..b {
             out.idx = Some(i);
+            // the quick tier leaves out two leaf styles that only vary which branch a condition
+            // selects / repeat one leaf (they matter for evaluation order, C07, not for containment)
+            if tier == Tier::Quick && matches!(progs.style_of(i), Some("mixed-false") | Some("repeat")) {
+                continue;
+            }
             let ast = &progs.get(i);
             let text = print_program(ast, &world);
             let key = shape_key(ast, &world.ops);
